@@ -20,10 +20,21 @@ _ANYVAL = "".join(chr(c) for c in range(0x00, 0x80))
 
 
 @st.composite
-def cfg_item(draw):
+def cfg_item(draw, nokey=False):
     wide = draw(st.integers(0, 9)) == 0
     key = draw(st.text(_ANYKEY if wide else _KEYCH, min_size=1, max_size=12))
-    kind = draw(st.sampled_from(["none", "empty", "val", "val", "eq", "long"]))
+    kind = draw(st.sampled_from(["none", "empty", "val", "val", "eq", "long", "len", "nokey" if nokey else "len"]))
+    if kind == "len":
+        # every string length the one-byte prefix can express is equally likely (the prefix byte takes every value,
+        # the ASCII codes of '=' and of the printable range included), as a bare key or as key=value
+        total = draw(st.integers(1, 255))
+        if draw(st.booleans()):
+            return ["k" * total, None]
+        klen = draw(st.integers(0, min(total - 1, 12)))
+        return ["k" * klen, "v" * (total - klen - 1)]
+    if kind == "nokey":
+        # a string that starts with '=': empty key, the rest is the value
+        return ["", draw(st.text(_VALCH, max_size=6))]
     if kind == "none":
         return [key, None]
     if kind == "empty":
@@ -37,7 +48,7 @@ def cfg_item(draw):
 
 
 @st.composite
-def option_desc(draw, kinds=("ip", "ip", "ip", "lb", "cfg", "cfg", "unk")):
+def option_desc(draw, kinds=("ip", "ip", "ip", "lb", "cfg", "cfg", "unk"), nokey=False):
     k = draw(st.sampled_from(kinds))
     if k == "ip":
         t = draw(st.sampled_from(wire.IP4_TYPES + wire.IP6_TYPES))
@@ -50,7 +61,7 @@ def option_desc(draw, kinds=("ip", "ip", "ip", "lb", "cfg", "cfg", "unk")):
     if k == "lb":
         return dict(k="lb", prio=draw(u16), weight=draw(u16))
     if k == "cfg":
-        return dict(k="cfg", items=draw(st.lists(cfg_item(), max_size=4)))
+        return dict(k="cfg", items=draw(st.lists(cfg_item(nokey), max_size=4)))
     t = draw(st.integers(0, 255).filter(lambda x: x not in wire.KNOWN_OPTION_TYPES))
     return dict(k="unk", type=t, data=draw(st.binary(max_size=24)).hex())
 
@@ -79,7 +90,7 @@ def raw_option(draw, noncanon=True):
     how = draw(st.sampled_from(["desc", "desc", "desc", "noncanon", "anytype"])) if noncanon else "desc"
     if how == "anytype":
         return {"raw": {"type": draw(st.integers(0, 255)), "data": draw(st.binary(max_size=26)).hex()}}
-    o = {"desc": draw(option_desc())}
+    o = {"desc": draw(option_desc(nokey=True))}   # on the wire a configuration string may start with '=' (empty key)
     if how == "noncanon":
         o["reserved"] = draw(st.sampled_from([0, 1, 0x80, 0xFF]))
         o["reserved2"] = draw(st.sampled_from([0, 1, 0xFF]))
@@ -163,6 +174,7 @@ mut_op = st.one_of(
     st.tuples(st.just("field+"), st.integers(0, 255), st.sampled_from([-1, 1, -2, 2, 16, -16])),
     st.tuples(st.just("nonascii"), st.integers(0, 255), st.sampled_from([0x80, 0xC3, 0xFF])),
     st.tuples(st.just("utf8"), st.integers(0, 255), st.sampled_from(["c3a9", "e282ac", "c3a9c3a9"])),
+    st.tuples(st.just("optcut"), st.integers(0, 255), st.booleans()),
 )
 
 
@@ -190,6 +202,18 @@ def apply_mutations(data, fields, script, base=0):
             pos = op[1] % len(b)
             seg = b[pos : pos + op[2]]
             b[pos:pos] = seg
+        elif k == "optcut":
+            # the options array ends at an exact option boundary: its length field is rewritten to the size of the first
+            # k options (the entries stay byte-identical), the cut-off options stay behind as trailing bytes or are removed
+            o4 = [f for f in fields if f[2] == "olen4"]
+            starts = sorted(f[0] for f in fields if f[2] == "olen")
+            if o4 and starts:
+                off = o4[0][0] + base
+                if off + 4 <= len(b):
+                    v = starts[op[1] % len(starts)] - (o4[0][0] + 4)
+                    b[off : off + 4] = v.to_bytes(4, "big")
+                    if op[2]:
+                        del b[off + 4 + v :]
         elif k == "utf8":
             # a valid multi-byte UTF-8 sequence written over the text of a configuration string
             sel = [f for f in fields if f[2] == "cfgchar"]
@@ -215,3 +239,14 @@ def apply_mutations(data, fields, script, base=0):
                 width = 1
             b[off : off + width] = v.to_bytes(width, "big")
     return bytes(b)
+
+
+def cfg_length_sweep():
+    """configuration options holding one string of every length the one-byte prefix can express, as a bare key and as key=value"""
+    out = []
+    for total in range(1, 256):
+        out.append(dict(k="cfg", items=[["k" * total, None]]))
+        if total >= 2:
+            klen = min(3, total - 1)
+            out.append(dict(k="cfg", items=[["k" * klen, "v" * (total - 1 - klen)]]))
+    return out
